@@ -15,13 +15,14 @@ import (
 // with "//@" (or "// @", which is what gofmt may turn it into).
 
 type Clause struct {
-	Kind  string // requires, ensures, invariant, assume
-	Label string
-	Props []string
-	Src   string
-	E     Expr
-	File  string
-	Line  int
+	Kind    string // requires, ensures, invariant, assume
+	Bounded bool   // decided by a bounded stand-in, not by the solver (assumed at call sites)
+	Label   string
+	Props   []string
+	Src     string
+	E       Expr
+	File    string
+	Line    int
 }
 
 type LoopSpec struct {
@@ -68,6 +69,14 @@ type FuncContract struct {
 	Header   string
 	MayPanic bool
 	CallsArg bool // the function's whole effect is to call its last argument (a func()) once
+	Bounded  []BoundedDef
+}
+
+// BoundedDef attaches a bounded stand-in (a harness test run on the real code over an
+// enumerated input space) to clauses that no SMT theory here can decide.
+type BoundedDef struct {
+	Test  string
+	Bound string
 }
 
 type MacroDef struct {
@@ -173,7 +182,7 @@ func (sp *Specs) LoadFile(path, pkgName string) error {
 		if j := strings.Index(s, " //"); j >= 0 && !strings.Contains(s[:j], `"`) {
 			s = s[:j] // trailing comment
 		}
-		if strings.TrimSpace(s) == "" {
+		if strings.TrimSpace(s) == "" || strings.HasPrefix(strings.TrimSpace(s), "//") {
 			continue
 		}
 		lines = append(lines, line{s, i + 1})
@@ -285,7 +294,13 @@ func (sp *Specs) LoadFile(path, pkgName string) error {
 				parts := strings.SplitN(lab, ";", 2)
 				c.Label = strings.TrimSpace(parts[0])
 				if len(parts) == 2 {
-					c.Props = splitList(parts[1])
+					for _, pr := range splitList(strings.ReplaceAll(parts[1], ";", ",")) {
+						if pr == "bounded" {
+							c.Bounded = true
+						} else {
+							c.Props = append(c.Props, pr)
+						}
+					}
 				}
 			}
 			if c.Label == "" {
@@ -311,6 +326,16 @@ func (sp *Specs) LoadFile(path, pkgName string) error {
 			default:
 				cur.Ensures = append(cur.Ensures, c)
 			}
+		case "bounded":
+			if cur == nil {
+				return fail("bounded outside a function contract")
+			}
+			f := strings.SplitN(rest, " ", 2)
+			bd := BoundedDef{Test: f[0]}
+			if len(f) == 2 {
+				bd.Bound = strings.Trim(strings.TrimSpace(f[1]), `"`)
+			}
+			cur.Bounded = append(cur.Bounded, bd)
 		case "modifies":
 			if cur == nil {
 				return fail("modifies outside a function contract")
